@@ -12,6 +12,55 @@ def optBytes : Option Bytes → String
   | some b => "ok " ++ hexOut b
   | none => "err"
 
+/-- key=value arguments -/
+def kv (args : List String) (k : String) : Option String :=
+  args.findSome? fun a => if a.startsWith (k ++ "=") then some ((a.drop (k.length + 1)).toString) else none
+
+def parseTail (s : String) : Option RErr :=
+  match s.splitOn ":" with
+  | ["eof"] => some .eof
+  | ["ueof"] => some .unexpectedEOF
+  | ["err"] => some .other
+  | ["coded", c, w] => c.toNat?.map fun n => .coded n (w == "1")
+  | _ => none
+
+def showYield : Yield Bytes → String
+  | .msg none => "m:-"
+  | .msg (some v) => "m:" ++ hexOut v
+  | .endSpecial fl d => s!"s:{fl.toNat}:{hexOut d}"
+  | .fail e => s!"e:{e.code}:{if e.wrapsEOF then 1 else 0}"
+
+def envRecvOp (args : List String) : String :=
+  match kv args "comp", (kv args "max").bind String.toNat?, (kv args "tail").bind parseTail, (kv args "flat").bind hexArg with
+  | some comp, some max, some tail, some flat =>
+    let cfg : ReaderCfg Bytes := { codec := rawCodec, pool := if comp == "1" then some rleCompressor else none, max := max }
+    let fuel := flat.length / 5 + 2
+    let r := ((recvAll cfg fuel).run takeExact { flat := flat, tail := tail }).1
+    " ".intercalate (r.1.map showYield)
+  | _, _, _, _ => "bad-op"
+
+def envWriteOp (args : List String) : String :=
+  match kv args "comp", (kv args "min").bind String.toInt?, kv args "msgs", kv args "extra" with
+  | some comp, some min, some msgs, some extra =>
+    let pool := if comp == "1" then some rleCompressor else none
+    let cfg : WriterCfg Bytes := { codec := rawCodec, pool := pool, minBytes := min }
+    let ms := if msgs == "" then some [] else (msgs.splitOn ",").mapM hexArg
+    let ex : Option (Option (UInt8 × Bytes)) :=
+      if extra == "none" then some none
+      else match extra.splitOn ":" with
+        | [f, d] => match f.toNat?, hexArg d with
+          | some fl, some dd => some (some (UInt8.ofNat fl, dd))
+          | _, _ => none
+        | _ => none
+    match ms, ex with
+    | some ms, some ex =>
+      let wire := (ms.map (envMarshal cfg)).flatten ++ (match ex with
+        | some (fl, d) => envWrite pool min fl d
+        | none => [])
+      hexOut wire
+    | _, _ => "bad-op"
+  | _, _, _, _ => "bad-op"
+
 def step (line : String) : String :=
   match (line.trimAscii.toString.splitOn " ") with
   | ["code.str", n] => match n.toNat? with
@@ -69,6 +118,8 @@ def step (line : String) : String :=
   | ["ctmo.enc", lo, hi, hdr] => match lo.toInt?, hi.toInt?, (if hdr == "none" then some none else (hexArg hdr).map some) with
     | some l, some h, some hd => if connectEncodeConsistent l h hd then "ok" else "bad"
     | _, _, _ => "bad-op"
+  | "env.recv" :: args => envRecvOp args
+  | "env.write" :: args => envWriteOp args
   | ["canary"] => "canary-model"
   | _ => "bad-op"
 
